@@ -172,8 +172,11 @@ void TcpConnector::enterConnectingState()
 {
     //! 创建Socket
     SocketFd new_sock_fd = createSocket(server_addr_.type());
-    if (new_sock_fd.isNull())
+    if (new_sock_fd.isNull()) {
+        //! no socket right now (e.g. EMFILE): it is a failed attempt like any other, try again later
+        onConnectFail();
         return;
+    }
 
     LogDbg("server_addr:%s", server_addr_.toString().c_str());
 
